@@ -437,13 +437,12 @@ Proof.
     destruct d as [l|ty ns|l|txt]; simpl.
     + simpl in Ha1. rewrite enum_walk_specs_existsb, Ha1. apply IH; [exact Ha2|]. simpl in Hc. exact Hc.
     + simpl in Hc. destruct (ty =? T) eqn:Et; simpl.
-      * destruct ns as [|x ns].
+      * destruct (real_names ns) as [|x ns'] eqn:Er.
         -- simpl. apply IH; [exact Ha2|]. simpl in Hc. exact Hc.
         -- assert (Hi : type_is_int p T = true).
            { destruct Hc as [Hc|Hc]; [exact Hc|]. simpl in Hc. discriminate. }
            rewrite Hi. rewrite IH; [|exact Ha2|left; exact Hi].
-           replace (n + Datatypes.length (x :: ns) + consts_in T ds)
-             with (n + (Datatypes.length (x :: ns) + consts_in T ds)) by lia. reflexivity.
+           f_equal. simpl. lia.
       * apply IH; [exact Ha2|]. exact Hc.
     + apply IH; [exact Ha2|]. simpl in Hc. exact Hc.
     + apply IH; [exact Ha2|]. simpl in Hc. exact Hc.
@@ -458,7 +457,7 @@ Proof.
   - rewrite enum_walk_specs_existsb. destruct (existsb (alias_pred T) l); [eexists; reflexivity|].
     apply IH. exact Ha.
   - destruct (ty =? T); simpl; [|apply IH; exact Ha].
-    destruct ns as [|x ns]; [apply IH; exact Ha|].
+    destruct (real_names ns) as [|x ns']; [apply IH; exact Ha|].
     destruct (type_is_int p T); [apply IH; exact Ha | eexists; reflexivity].
   - apply IH. exact Ha.
   - apply IH. exact Ha.
@@ -471,7 +470,7 @@ Proof.
   destruct d as [l|ty ns|l|txt]; simpl in *.
   - destruct (enum_walk_specs T l); [eexists; reflexivity | apply IH; assumption].
   - destruct (ty =? T); simpl; [|apply IH; assumption].
-    destruct ns as [|x ns]; [apply IH; assumption|]. rewrite Hi. eexists; reflexivity.
+    destruct (real_names ns) as [|x ns']; [apply IH; assumption|]. rewrite Hi. eexists; reflexivity.
   - apply IH; assumption.
   - apply IH; assumption.
 Qed.
@@ -824,14 +823,6 @@ Proof.
   apply find_some in E. exists f. tauto.
 Qed.
 
-Lemma file_arg_is_file : forall fl p, file_arg_ok fl p = true -> fl_file fl <> "" ->
-  exists f, In f (p_files p) /\ f_name f = fl_file fl.
-Proof.
-  intros fl p H Hne. unfold file_arg_ok in H. apply String.eqb_neq in Hne. rewrite Hne in H. simpl in H.
-  apply andb_true_iff in H. destruct H as [_ H]. apply mem_In in H. apply in_map_iff in H.
-  destruct H as [f [He Hf]]. exists f. tauto.
-Qed.
-
 Lemma check_file_arg_ok : forall fl p, file_arg_ok fl p = true -> check_file_arg fl p = None.
 Proof.
   intros fl p H. unfold file_arg_ok in H. unfold check_file_arg. destruct (fl_file fl =? ""); [reflexivity|].
@@ -886,10 +877,18 @@ Qed.
 
 (* ------------------------------------------------------------ main theorem *)
 
+(* main's loop writes the files in the order Go iterates srcMap and lists their names in that order *)
+Lemma main_loop_spec : forall l w n, main_loop l w n = Done (w ++ l)%list (n ++ map fst l)%list.
+Proof.
+  induction l as [|[k v] l IH]; intros w n; simpl.
+  - rewrite !app_nil_r. reflexivity.
+  - rewrite IH, <- !app_assoc. reflexivity.
+Qed.
+
 Definition refines (o : oracle) (c : subcmd) (fl : cflags) (p : pkg) : Prop :=
   match spec c fl p with
   | EFail => exists d, run o c fl p = Failed d
-  | EFiles fs => run o c fl p = Done fs (o _ (map fst fs)) /\ forallb (anchored c p) (map fst fs) = true
+  | EFiles fs => run o c fl p = Done (o _ fs) (map fst (o _ fs)) /\ forallb (anchored c p) (map fst fs) = true
   end.
 
 Lemma known_class_false : forall c fl p, known_class c fl p = false ->
@@ -980,7 +979,7 @@ Proof.
       unfold refines. rewrite Hspec. apply nodupb_NoDup in End. split.
       * unfold run. rewrite (check_file_arg_ok fl p Hfa). unfold run_loaded. rewrite Hsp, Hc, Haio.
         rewrite (gen_loop_sep c p fl "" fm name); try assumption.
-        -- rewrite Hk. reflexivity.
+        -- rewrite Hk, main_loop_spec. reflexivity.
         -- rewrite Hk. simpl. exact End.
       * rewrite map_map. simpl. apply forallb_forall. intros n Hn. apply in_map_iff in Hn. destruct Hn as [T [He HT]].
         subst n. unfold name. destruct (nameable_file c p T W (Hall T HT)) as [f [Hf Hd]]. rewrite Hd.
@@ -1053,9 +1052,11 @@ Proof.
                               | [] => files
                               | _ => (files ++ [(file_name c fl (all_in_one_file fl p) [] "", merged)])%list
                               end in
-                Done files' (o _ (map fst files'))
+                Done (o _ files') (map fst (o _ files'))
             end).
-  { unfold run. rewrite (check_file_arg_ok fl p Hfa). unfold run_loaded. rewrite Hsp, Hlist. reflexivity. }
+  { unfold run. rewrite (check_file_arg_ok fl p Hfa). unfold run_loaded. rewrite Hsp, Hlist.
+    destruct (gen_loop c p fl (all_in_one_file fl p) [] (map ts_name (filter (test_node_list c) pool)) [] []) as [[[d|] fs] mg];
+      [reflexivity|]. rewrite main_loop_spec. reflexivity. }
   assert (Hnofatal : forall T d, In T (map ts_name (filter (test_node_list c) pool)) ->
             make_data c p (fl_specified fl) T <> MFatal d).
   { intros T d HT. rewrite Hsp. eapply listed_no_fatal; eassumption. }
@@ -1118,7 +1119,8 @@ Proof.
       * unfold k_star_no_generate_line, star_mode in Hnogen. rewrite Hsp, Ef, Hselspec in Hnogen. simpl in Hnogen.
         rewrite andb_true_r in Hnogen. apply String.eqb_neq in Hnogen.
         destruct (aio_is_file fl p Hnogen) as [f [Hf He]]. rewrite He. apply anchored_all_in_one. exact Hf.
-      * apply String.eqb_neq in Ef. destruct (file_arg_is_file fl p Hfa Ef) as [f [Hf He]]. rewrite <- He.
+      * destruct (Hselin T0 (or_introl eq_refl)) as [t [Ht _]]. unfold pool in Ht. try rewrite Ef in Ht.
+        destruct (file_named_in p _ t Ht) as [f [Hf [He _]]]. rewrite <- He.
         apply anchored_all_in_one. exact Hf.
 Qed.
 
@@ -1137,13 +1139,34 @@ Qed.
 
 (* ----------------------------------------------------------- consequences *)
 
+Lemma srcmap_same_perm : forall a b, Permutation a b -> srcmap_same a b = true.
+Proof.
+  intros a b Hp. unfold srcmap_same. rewrite (Permutation_length Hp), Nat.eqb_refl. simpl.
+  apply andb_true_iff. split; apply forallb_forall; intros kv Hkv; apply has_entry_in.
+  - eapply Permutation_in; eassumption.
+  - eapply Permutation_in; [apply Permutation_sym; exact Hp | exact Hkv].
+Qed.
+
+Lemma forallb_perm : forall (A : Type) (P : A -> bool) l l', Permutation l' l -> forallb P l = true -> forallb P l' = true.
+Proof.
+  intros A P l l' Hp H. apply forallb_forall. intros x Hx. rewrite forallb_forall in H. apply H.
+  eapply Permutation_in; eassumption.
+Qed.
+
+Lemma perm_oracle_nil : forall o (A : Type), perm_oracle o -> o A [] = [].
+Proof. intros o A Ho. apply Permutation_nil. apply Permutation_sym. apply Ho. Qed.
+
+Lemma perm_oracle_one : forall o (A : Type) (x : A), perm_oracle o -> o A [x] = [x].
+Proof. intros o A x Ho. apply Permutation_length_1_inv. apply Permutation_sym. apply Ho. Qed.
+
 Lemma refines_meets : forall o c fl p, perm_oracle o -> refines o c fl p ->
   meets c p (run o c fl p) (spec c fl p) = true.
 Proof.
   intros o c fl p Ho H. unfold refines in H. destruct (spec c fl p) as [|fs].
   - destruct H as [d Hd]. rewrite Hd. reflexivity.
-  - destruct H as [Hr Ha]. rewrite Hr. simpl. rewrite srcmap_same_refl, Ha.
-    rewrite (perm_eqb_complete _ _ (Ho _ (map fst fs))). reflexivity.
+  - destruct H as [Hr Ha]. rewrite Hr. simpl. rewrite (srcmap_same_perm _ _ (Ho _ fs)).
+    rewrite (perm_eqb_complete _ _ (Permutation_map fst (Ho _ fs))).
+    rewrite (forallb_perm _ _ _ _ (Permutation_map fst (Ho _ fs)) Ha). reflexivity.
 Qed.
 
 Theorem run_meets_spec : forall o c fl p,
@@ -1151,18 +1174,22 @@ Theorem run_meets_spec : forall o c fl p,
   meets c p (run o c fl p) (spec c fl p) = true.
 Proof. intros o c fl p Ho Hwf Hfl Hk. apply refines_meets; [exact Ho|]. apply run_refines_spec; assumption. Qed.
 
-(* the success message lists exactly the written files -- for every input *)
+(* the success message lists the written files, in the order they were written --
+   for every input and every iteration order.  NOTE: this follows from the shape
+   of main's loop alone (each iteration writes one file and appends its name,
+   [main_loop]); that the real message does so is checked by the correspondence
+   run on every case, not by this theorem. *)
 Theorem message_lists_every_file : forall o c fl p files listed,
-  perm_oracle o -> run o c fl p = Done files listed -> Permutation listed (map fst files).
+  run o c fl p = Done files listed -> listed = map fst files.
 Proof.
-  intros o c fl p files listed Ho H. unfold run in H. destruct (check_file_arg fl p); [discriminate|].
+  intros o c fl p files listed H. unfold run in H. destruct (check_file_arg fl p); [discriminate|].
   unfold run_loaded in H.
   destruct (if fl_specified fl
             then match confirm_specified o p fl (fl_types fl) [] with
                  | Some fmap => Some (fl_types fl, fmap) | None => None end
             else Some (list_types c fl p, [])) as [[types fmap]|]; [|discriminate].
   destruct (gen_loop c p fl (all_in_one_file fl p) fmap types [] []) as [[[d|] fs] merged]; [discriminate|].
-  inversion H; subst. apply Ho.
+  rewrite main_loop_spec in H. inversion H; subst. reflexivity.
 Qed.
 
 (* naming a missing or wrong-kind type (for any of the four subcommands, function-local
@@ -1224,8 +1251,8 @@ Theorem type_list_exact : forall o c fl p,
   perm_oracle o -> wf_pkgb p = true -> fl_specified fl = true -> fl_sep fl = true -> fl_file fl = "" ->
   (forall T, In T (fl_types fl) -> nameable c p T = true) ->
   NoDup (map (fun T => per_type_name c (decl_file p T) T) (fl_types fl)) ->
-  run o c fl p = Done (map (fun T => (per_type_name c (decl_file p T) T, [T])) (fl_types fl))
-                      (o _ (map (fun T => per_type_name c (decl_file p T) T) (fl_types fl))).
+  run o c fl p = Done (o _ (map (fun T => (per_type_name c (decl_file p T) T, [T])) (fl_types fl)))
+                      (map fst (o _ (map (fun T => (per_type_name c (decl_file p T) T, [T])) (fl_types fl)))).
 Proof.
   intros o c fl p Ho Hwf Hsp Hsep Hf Hall Hnd. apply wf_pkgb_wf in Hwf.
   assert (Hfa : file_arg_ok fl p = true) by (unfold file_arg_ok; rewrite Hf; reflexivity).
@@ -1234,7 +1261,7 @@ Proof.
     assert (H : forallb (nameable c p) (fl_types fl) = true) by (apply forallb_forall; exact Hall).
     rewrite H. apply nodupb_NoDup in Hnd. rewrite Hnd. reflexivity. }
   pose proof (refines_specified o c fl p Ho Hwf Hsp Hsep Hfa) as R. unfold refines in R. rewrite Hspec in R.
-  destruct R as [R _]. rewrite R, map_map. reflexivity.
+  destruct R as [R _]. exact R.
 Qed.
 
 (* two named types whose output names coincide (Order / ORDER, or the same name
@@ -1268,9 +1295,9 @@ Theorem file_mode_exact : forall o c fl p f,
   In f (p_files p) -> fl_file fl = f_name f -> ends_with ".go" (f_name f) = true ->
   let sel := map ts_name (filter (listable c p) (top_specs f)) in
   run o c fl p = match sel with
-                 | [] => Done [] (o _ [])
+                 | [] => Done [] []
                  | _ => Done [(trim_go (f_name f) ++ "." ++ shootcmd c ++ ".go", sel)]
-                             (o _ [trim_go (f_name f) ++ "." ++ shootcmd c ++ ".go"])
+                             [trim_go (f_name f) ++ "." ++ shootcmd c ++ ".go"]
                  end.
 Proof.
   intros o c fl p f Ho Hwf Hsp Hsep Hf Hfile Hgo sel. apply wf_pkgb_wf in Hwf.
@@ -1278,7 +1305,7 @@ Proof.
   { intros C. pose proof (wf_visible p Hwf f Hf) as V. rewrite C in V. discriminate. }
   assert (Hfa : file_arg_ok fl p = true).
   { unfold file_arg_ok. rewrite Hfile, Hgo. apply String.eqb_neq in Hne. rewrite Hne. simpl.
-    apply mem_In. apply in_map. exact Hf. }
+    apply mem_In. apply in_or_app. left. apply in_map. exact Hf. }
   assert (Hfn : file_named p (fl_file fl) = top_specs f) by (rewrite Hfile; apply file_named_self; assumption).
   assert (Hnes : (fl_file fl =? "") = false) by (rewrite Hfile; apply String.eqb_neq; exact Hne).
   assert (Hspec : spec c fl p = match sel with [] => EFiles [] | _ => EFiles [(all_in_one_name c (fl_file fl), sel)] end).
@@ -1288,8 +1315,8 @@ Proof.
     - unfold k_star_no_generate_line, star_mode. rewrite Hsp, Hnes. reflexivity.
     - unfold k_star_sep_file, star_mode. rewrite Hsp, Hnes. reflexivity. }
   unfold refines in R. rewrite Hspec in R. destruct sel as [|T0 sel'].
-  - destruct R as [R _]. exact R.
-  - destruct R as [R _]. rewrite R. unfold all_in_one_name. rewrite Hfile. reflexivity.
+  - destruct R as [R _]. rewrite R, perm_oracle_nil by exact Ho. reflexivity.
+  - destruct R as [R _]. rewrite R, perm_oracle_one by exact Ho. unfold all_in_one_name. rewrite Hfile. reflexivity.
 Qed.
 
 (* -file=f.go -sep: one file f.shoot<cmd>.<type>.go per eligible declaration of f.go;
@@ -1299,7 +1326,8 @@ Theorem file_mode_sep_exact : forall o c fl p f,
   In f (p_files p) -> fl_file fl = f_name f -> ends_with ".go" (f_name f) = true ->
   let sel := map ts_name (filter (listable c p) (top_specs f)) in
   let name := fun T => per_type_name c (f_name f) T in
-  (NoDup (map name sel) -> run o c fl p = Done (map (fun T => (name T, [T])) sel) (o _ (map name sel))) /\
+  (NoDup (map name sel) -> run o c fl p = Done (o _ (map (fun T => (name T, [T])) sel))
+                                                   (map fst (o _ (map (fun T => (name T, [T])) sel)))) /\
   (~ NoDup (map name sel) -> exists d, run o c fl p = Failed d).
 Proof.
   intros o c fl p f Ho Hwf Hsp Hsep Hf Hfile Hgo sel name. apply wf_pkgb_wf in Hwf.
@@ -1307,7 +1335,7 @@ Proof.
   { intros C. pose proof (wf_visible p Hwf f Hf) as V. rewrite C in V. discriminate. }
   assert (Hfa : file_arg_ok fl p = true).
   { unfold file_arg_ok. rewrite Hfile, Hgo. apply String.eqb_neq in Hne. rewrite Hne. simpl.
-    apply mem_In. apply in_map. exact Hf. }
+    apply mem_In. apply in_or_app. left. apply in_map. exact Hf. }
   assert (Hfn : file_named p (fl_file fl) = top_specs f) by (rewrite Hfile; apply file_named_self; assumption).
   assert (Hnes : (fl_file fl =? "") = false) by (rewrite Hfile; apply String.eqb_neq; exact Hne).
   assert (Hnames : map (fun T => per_type_name c (decl_file p T) T) sel = map name sel).
@@ -1322,7 +1350,7 @@ Proof.
     - unfold k_star_sep_file, star_mode. rewrite Hsp, Hnes. reflexivity. }
   unfold refines, spec in R. rewrite Hfa, Hsp, Hsep, Hnes in R. simpl in R. rewrite Hfn in R. fold sel in R.
   rewrite Hnames, Hpairs in R. split; intros Hnd.
-  - apply nodupb_NoDup in Hnd. rewrite Hnd in R. destruct R as [R _]. rewrite R, map_map. reflexivity.
+  - apply nodupb_NoDup in Hnd. rewrite Hnd in R. destruct R as [R _]. exact R.
   - destruct (nodupb (map name sel)) eqn:E; [exfalso; apply Hnd; apply nodupb_NoDup; exact E | exact R].
 Qed.
 
@@ -1333,9 +1361,9 @@ Theorem star_mode_exact : forall o c fl p,
   all_in_one_file fl p <> "" ->
   let sel := map ts_name (filter (listable c p) (pkg_specs p)) in
   run o c fl p = match sel with
-                 | [] => Done [] (o _ [])
+                 | [] => Done [] []
                  | _ => Done [(trim_go (all_in_one_file fl p) ++ "." ++ shootcmd c ++ ".go", sel)]
-                             (o _ [trim_go (all_in_one_file fl p) ++ "." ++ shootcmd c ++ ".go"])
+                             [trim_go (all_in_one_file fl p) ++ "." ++ shootcmd c ++ ".go"]
                  end.
 Proof.
   intros o c fl p Ho Hwf Hsp Hsep Hf Haio sel. apply wf_pkgb_wf in Hwf.
@@ -1347,8 +1375,8 @@ Proof.
     - unfold k_star_no_generate_line. apply String.eqb_neq in Haio. rewrite Haio. rewrite andb_false_r. reflexivity.
     - unfold k_star_sep_file. rewrite Hsep. rewrite andb_false_r. reflexivity. }
   unfold refines in R. rewrite Hspec in R. destruct sel as [|T0 sel'].
-  - destruct R as [R _]. exact R.
-  - destruct R as [R _]. rewrite R. reflexivity.
+  - destruct R as [R _]. rewrite R, perm_oracle_nil by exact Ho. reflexivity.
+  - destruct R as [R _]. rewrite R, perm_oracle_one by exact Ho. reflexivity.
 Qed.
 
 (* getGoFile is independent of the iteration order of TypesInfo.Defs: the file
@@ -1368,9 +1396,9 @@ Lemma run_listed_merged : forall o c fl p, perm_oracle o -> wf p ->
   fl_specified fl = false -> fl_sep fl = false -> file_arg_ok fl p = true ->
   run o c fl p =
   match spec_selection c fl p with
-  | [] => Done [] (o _ [])
+  | [] => Done [] []
   | sel => let n := all_in_one_name c (if fl_file fl =? "" then all_in_one_file fl p else fl_file fl) in
-           Done [(n, sel)] (o _ [n])
+           Done [(n, sel)] [n]
   end.
 Proof.
   intros o c fl p Ho W Hsp Hsep Hfa.
@@ -1388,8 +1416,9 @@ Proof.
   unfold run. rewrite (check_file_arg_ok fl p Hfa). unfold run_loaded. rewrite Hsp, Hlist.
   rewrite gen_loop_merge by assumption. rewrite Hsp, filter_keep_listable by assumption.
   unfold spec_selection. fold pool. simpl.
-  destruct (map ts_name (filter (listable c p) pool)) as [|T0 sel']; [reflexivity|].
-  rewrite file_name_all. reflexivity.
+  destruct (map ts_name (filter (listable c p) pool)) as [|T0 sel'].
+  - rewrite main_loop_spec, perm_oracle_nil by exact Ho. reflexivity.
+  - rewrite main_loop_spec, perm_oracle_one by exact Ho. rewrite file_name_all. reflexivity.
 Qed.
 
 Lemma trim_go_head : forall n, visible_file n = true -> exists ch r, trim_go n = String ch r /\ ch <> "."%char.
@@ -1418,7 +1447,7 @@ Qed.
 Theorem star_without_generate_line : forall o c fl p, perm_oracle o -> wf_pkgb p = true ->
   fl_specified fl = false -> fl_sep fl = false -> fl_file fl = "" -> all_in_one_file fl p = "" ->
   spec_selection c fl p <> [] ->
-  run o c fl p = Done [("." ++ shootcmd c ++ ".go", spec_selection c fl p)] (o _ ["." ++ shootcmd c ++ ".go"]) /\
+  run o c fl p = Done [("." ++ shootcmd c ++ ".go", spec_selection c fl p)] ["." ++ shootcmd c ++ ".go"] /\
   anchored c p ("." ++ shootcmd c ++ ".go") = false /\
   meets c p (run o c fl p) (spec c fl p) = false.
 Proof.
@@ -1430,4 +1459,84 @@ Proof.
   destruct (spec_selection c fl p) as [|T0 sel'] eqn:Es; [contradiction|].
   unfold all_in_one_name in R. simpl in R. split; [exact R|]. split; [exact U|].
   rewrite R. destruct (spec c fl p); [reflexivity|]. simpl. rewrite U. rewrite !andb_false_r. reflexivity.
+Qed.
+
+(* -file naming an existing .go file that is not a file of the package (a _test.go
+   file, a file excluded by a build constraint, a file of a sub-directory): no
+   declaration of it belongs to the package; nothing is generated, exit 0 *)
+Theorem other_file_generates_nothing : forall o c fl p,
+  perm_oracle o -> wf_pkgb p = true -> fl_specified fl = false ->
+  In (fl_file fl) (p_others p) -> ~ In (fl_file fl) (map f_name (p_files p)) -> ends_with ".go" (fl_file fl) = true ->
+  run o c fl p = Done [] [] /\ spec c fl p = EFiles [].
+Proof.
+  intros o c fl p Ho Hwf Hsp Hin Hnot Hgo. apply wf_pkgb_wf in Hwf.
+  assert (Hne : (fl_file fl =? "") = false).
+  { destruct (fl_file fl =? "") eqn:E; [|reflexivity]. apply String.eqb_eq in E. rewrite E in Hgo. discriminate. }
+  assert (Hfa : file_arg_ok fl p = true).
+  { unfold file_arg_ok. rewrite Hne, Hgo. simpl. apply mem_In. apply in_or_app. right. exact Hin. }
+  assert (Hfn : file_named p (fl_file fl) = []).
+  { unfold file_named. destruct (find (fun f => f_name f =? fl_file fl) (p_files p)) as [f|] eqn:E; [|reflexivity].
+    exfalso. apply find_some in E. destruct E as [Hf He]. apply String.eqb_eq in He. apply Hnot. rewrite <- He.
+    apply in_map. exact Hf. }
+  assert (Hspec : spec c fl p = EFiles []).
+  { unfold spec. rewrite Hfa, Hsp, Hne. simpl. rewrite Hfn. simpl. destruct (fl_sep fl); reflexivity. }
+  assert (R : refines o c fl p).
+  { apply refines_listed; try assumption.
+    - unfold k_star_no_generate_line, star_mode. rewrite Hsp, Hne. reflexivity.
+    - unfold k_star_sep_file, star_mode. rewrite Hsp, Hne. reflexivity. }
+  unfold refines in R. rewrite Hspec in R. destruct R as [R _]. rewrite R, perm_oracle_nil by exact Ho.
+  split; [reflexivity | exact Hspec].
+Qed.
+
+(* -------- findCmdLine, declaratively: some line of the comment is
+   "//go:generate" ++ anything ++ the command line *)
+
+Lemma prefix_iff : forall a s, String.prefix a s = true <-> exists r, s = a ++ r.
+Proof.
+  induction a as [|x a IH]; intros s.
+  - split; [intros _; exists s; reflexivity | intros _; apply prefix_empty].
+  - destruct s as [|y s]; simpl.
+    + split; [discriminate | intros [r H]; discriminate].
+    + destruct (ascii_dec x y) as [E|N].
+      * subst y. rewrite IH. split; intros [r H]; exists r; [rewrite H; reflexivity | inversion H; reflexivity].
+      * split; [discriminate | intros [r H]; inversion H; congruence].
+Qed.
+
+Lemma ends_with_unfold : forall suf s,
+  ends_with suf s = (s =? suf) || match s with EmptyString => false | String _ s' => ends_with suf s' end.
+Proof. intros suf s. destruct s; reflexivity. Qed.
+
+Lemma ends_with_iff : forall suf s, ends_with suf s = true <-> exists m, s = m ++ suf.
+Proof.
+  intros suf s. split.
+  - induction s as [|c s IH]; intros H; rewrite ends_with_unfold in H; apply orb_true_iff in H; destruct H as [H|H].
+    + apply String.eqb_eq in H. exists "". rewrite <- H. reflexivity.
+    + discriminate.
+    + apply String.eqb_eq in H. exists "". rewrite <- H. reflexivity.
+    + destruct (IH H) as [m Hm]. exists (String c m). rewrite Hm. reflexivity.
+  - intros [m Hm]. subst s. induction m as [|c m IH].
+    + rewrite ends_with_unfold. simpl append. rewrite String.eqb_refl. reflexivity.
+    + rewrite ends_with_unfold. simpl append. cbn iota. rewrite IH. apply orb_true_r.
+Qed.
+
+Lemma drop_app : forall a r, drop (String.length a) (a ++ r) = r.
+Proof. induction a as [|x a IH]; intros r; simpl; [reflexivity | apply IH]. Qed.
+
+Theorem line_matches_iff : forall cmdline line,
+  line_matches cmdline line = true <-> exists mid, line = "//go:generate" ++ mid ++ cmdline.
+Proof.
+  intros cmdline line. unfold line_matches, has_prefix. rewrite andb_true_iff, prefix_iff. split.
+  - intros [[r Hr] He]. subst line. change 13 with (String.length "//go:generate") in He. rewrite drop_app in He.
+    apply ends_with_iff in He. destruct He as [m Hm]. exists m. rewrite Hm. reflexivity.
+  - intros [mid H]. subst line. split; [exists (mid ++ cmdline); reflexivity|].
+    change 13 with (String.length "//go:generate"). rewrite drop_app. apply ends_with_iff. exists mid. reflexivity.
+Qed.
+
+Theorem find_cmd_line_iff : forall text cmdline,
+  find_cmd_line text cmdline = true <->
+  exists line mid, In line (lines text) /\ line = "//go:generate" ++ mid ++ cmdline.
+Proof.
+  intros text cmdline. unfold find_cmd_line. rewrite existsb_exists. split.
+  - intros [l [Hl Hm]]. apply line_matches_iff in Hm. destruct Hm as [mid Hm]. exists l, mid. tauto.
+  - intros [l [mid [Hl Hm]]]. exists l. split; [exact Hl|]. apply line_matches_iff. exists mid. exact Hm.
 Qed.
